@@ -45,9 +45,11 @@ func vh_AE() {
 	// GA1 (election safety as a rely): no second leader in the leader's own term
 	vAssume(vNot(vAnd(r.state == Leader, req.Term == r.currentTerm)))
 	// a pending replicated operation and a pending read on a leader, to observe C03.fail
+	// A leader may hold pending futures (N5). A non-leader can hold stale ones too: Stop does not fail
+	// them and Start/Restart keeps the operation manager, so they survive a stop/start of the same object.
 	var chRep chan Result[OperationResponse]
 	var chRO chan Result[OperationResponse]
-	if r.state == Leader {
+	if r.state == Leader || vNondetBool("stale-pending") {
 		chRep = make(chan Result[OperationResponse], 1)
 		chRO = make(chan Result[OperationResponse], 1)
 		r.operationManager.pendingReplicated[n.log.LastIndex()+1] = chRep
@@ -83,6 +85,14 @@ func vh_AE() {
 			res := <-chRep
 			vAssert(res.Error() == ErrNotLeader, "C03.fail-is-ErrNotLeader")
 		}
+		vAssert(vAnd(len(r.operationManager.pendingReplicated) == 0, len(r.operationManager.pendingReadOnly) == 0), "C03.tables-reset")
+	}
+	// entering a new term, or stepping down from a candidacy, goes through becomeFollower: whatever
+	// futures are still registered are failed there, so that none can later be answered with another
+	// leader's entry at the same index
+	if chRep != nil && pre.state != Leader && (post.term > pre.term || (req.Term == pre.term && (pre.state == Candidate || pre.state == PreCandidate))) {
+		vCover("stale-futures-failed")
+		vAssert(vAnd(len(chRep) == 1, len(chRO) == 1), "C03.stale-pending-futures-failed-on-new-term-or-step-down")
 		vAssert(vAnd(len(r.operationManager.pendingReplicated) == 0, len(r.operationManager.pendingReadOnly) == 0), "C03.tables-reset")
 	}
 	if pre.state == Leader && post.state == Leader {
